@@ -59,6 +59,7 @@ func (g *Gen) instr(b *ssa.BasicBlock, ins ssa.Instruction, st *State, r string)
 		return
 	case *ssa.Alloc:
 		loc := "(mkloc " + st.A + " pnil)"
+		g.ghostZero(st, st.A)
 		g.defVal(x, loc)
 		an := g.fresh("A")
 		g.define(an, "Int", "(+ "+st.A+" 1)")
@@ -188,6 +189,7 @@ func (g *Gen) instr(b *ssa.BasicBlock, ins ssa.Instruction, st *State, r string)
 		g.lookup(x, st, r)
 	case *ssa.MakeChan:
 		loc := "(mkloc " + st.A + " pnil)"
+		g.ghostZero(st, st.A)
 		g.defVal(x, loc)
 		an := g.fresh("A")
 		g.define(an, "Int", "(+ "+st.A+" 1)")
@@ -528,6 +530,7 @@ func (g *Gen) convert(x *ssa.Convert, st *State, r string) {
 		g.defVal(x, "(bytesOf "+g.heap(st, "bytes")+" "+a.T+")")
 	case isByteSlice(to) && isString(from):
 		arr := "(mkloc " + st.A + " pnil)"
+		g.ghostZero(st, st.A)
 		an := g.fresh("A")
 		g.define(an, "Int", "(+ "+st.A+" 1)")
 		st.A = an
@@ -655,6 +658,7 @@ func (g *Gen) makeSlice(x *ssa.MakeSlice, st *State, r string) {
 	g.oblige(g.oblName("makelen"), "makelen", []string{"SAFETY"}, r, "(and (<= 0 "+ln+") (<= "+ln+" "+cp+"))", "make: 0 <= len <= cap ("+x.Len.Name()+")", x.Pos())
 	g.allocBound(x, st, r, cp)
 	arr := "(mkloc " + st.A + " pnil)"
+	g.ghostZero(st, st.A)
 	an := g.fresh("A")
 	g.define(an, "Int", "(+ "+st.A+" 1)")
 	st.A = an
@@ -693,6 +697,7 @@ func (g *Gen) makeMap(x *ssa.MakeMap, st *State) {
 		}
 	}
 	loc := "(mkloc " + st.A + " pnil)"
+	g.ghostZero(st, st.A)
 	g.defVal(x, loc)
 	an := g.fresh("A")
 	g.define(an, "Int", "(+ "+st.A+" 1)")
